@@ -361,6 +361,51 @@ fn main() {
         t
     });
 
+    // S3c carry chains of every length behind every prefix length; word-limit coefficients
+    let cc = carry_chains(tier.pick(20, 40), tier.pick(24, 70));
+    run.bound("S3c_carry_chains", cc.len());
+    run.par("S3c carry chains", cc.len(), |i| {
+        let mut t = Tally::default();
+        let l = cc[i].len() as i128;
+        for sign in [1, -1] {
+            // integer part of 10 digits when long enough, else all fractional
+            for s in [l - 10, l, l + 3] {
+                if s < 1 {
+                    continue;
+                }
+                let x = Dec { n: big(&cc[i]) * sign, s };
+                let mut ns: Vec<usize> = vec![];
+                for drop in [1i128, 2] {
+                    if s - drop >= 0 {
+                        ns.push((s - drop) as usize);
+                    }
+                }
+                ns.push((l - 2).max(0) as usize); // {:.Ne}: drops the last digit
+                ns.push((l - 3).max(0) as usize);
+                ns.sort();
+                ns.dedup();
+                sweep(&run, &cfg, &x, &ns, &mut t);
+            }
+        }
+        t
+    });
+    let wl = word_limit_ints();
+    run.par("S3d word-limit coefficients", wl.len(), |i| {
+        let mut t = Tally::default();
+        let d = ndigits(&wl[i]) as usize;
+        for s in [0i128, 5, d as i128] {
+            let x = Dec { n: wl[i].clone(), s };
+            let mut ns: Vec<usize> = vec![0, 1, 2, d.saturating_sub(2), d.saturating_sub(1), d];
+            if s > 0 {
+                ns.push((s - 1) as usize);
+            }
+            ns.sort();
+            ns.dedup();
+            sweep(&run, &cfg, &x, &ns, &mut t);
+        }
+        t
+    });
+
     // S4 flags
     let ts = templates();
     let mut pool: Vec<Dec> = vec![];
